@@ -21,8 +21,14 @@ Section MetricFormulas.
   Definition euclid_sq (x1 x2 y1 y2 : T) : T :=
     let x := sub x1 x2 in let y := sub y1 y2 in add (mul x x) (mul y y).
   Definition euclid (x1 x2 y1 y2 : T) : T := sqrt (euclid_sq x1 x2 y1 y2).
-  (*  return abs(x) + abs(y)  *)
-  Definition manhattan (x1 x2 y1 y2 : T) : T :=
+  (*  x = x1 - x2 if x1 > x2 else x2 - x1;  y likewise;  return x + y
+      (after fixes/C19-manhattan-unsigned-wrap.diff: the smaller is subtracted from the larger, so the
+      subtraction never goes below zero — abs(x1 - x2) wrapped around for unsigned integer arguments)  *)
+  Variable ltb : T -> T -> bool.
+  Definition absdiff (a b : T) : T := if ltb b a then sub a b else sub b a.
+  Definition manhattan (x1 x2 y1 y2 : T) : T := add (absdiff x1 x2) (absdiff y1 y2).
+  (* the formula before the fix, for the refutation witness *)
+  Definition manhattan_abs (x1 x2 y1 y2 : T) : T :=
     let x := sub x1 x2 in let y := sub y1 y2 in add (abs x) (abs y).
 End MetricFormulas.
 
@@ -60,7 +66,7 @@ End GreatCircle.
 
 (* the running instances (binary64) *)
 Definition f_euclid := euclid PrimFloat.add PrimFloat.sub PrimFloat.mul PrimFloat.sqrt.
-Definition f_manhattan := manhattan PrimFloat.add PrimFloat.sub PrimFloat.abs.
+Definition f_manhattan := manhattan PrimFloat.add PrimFloat.sub PrimFloat.ltb.
 Section FloatGC.
   Variables (fsin fcos fasin : float -> float).
   Variable f_of_Z : Z -> float.
